@@ -191,7 +191,7 @@ theorem linked_both_orders (sort : List Driver → List Driver) (p : Nat) (hp : 
     ((firstOf .console (sort regs) = none ∨ firstOf .tty (sort regs) = none) →
       st.sink = none ∧ st.ttyAttached = none ∧ st.ttyState = stateInactive ∧ st.ttyRecv = []) := by
   intro st
-  obtain ⟨⟨_, hsink, hnone, hsome⟩, _, _, h4, h5, _, _⟩ := bringUp_spec sort p hp before regs after
+  obtain ⟨⟨_, hsink, hnone, hsome, _⟩, _, _, h4, h5, _, _⟩ := bringUp_spec sort p hp before regs after
   refine ⟨?_, ?_⟩
   · intro c t hc ht
     have hs : st.sink = some t.id := by rw [hsink, h4, h5, hc, ht]; rfl
@@ -219,7 +219,7 @@ theorem log_exactly_once (sort : List Driver → List Driver) (p : Nat) (hp : p 
       st.ttyRecv = ttyStream (st.logged.take n) (st.logged.drop n) ∧ st.ring.contents = []) ∧
     (st.sink = none → st.ttyRecv = [] ∧ st.ring.contents = lastN cap st.logged) := by
   intro st
-  obtain ⟨⟨_, _, hnone, hsome⟩, _, _, _, _, _, h7⟩ := bringUp_spec sort p hp before regs after
+  obtain ⟨⟨_, _, hnone, hsome, _⟩, _, _, _, _, _, h7⟩ := bringUp_spec sort p hp before regs after
   refine ⟨h7, ?_, ?_⟩
   · intro t ht
     obtain ⟨_, _, a3, n, a4, a5, a6⟩ := hsome t ht
@@ -227,6 +227,36 @@ theorem log_exactly_once (sort : List Driver → List Driver) (p : Nat) (hp : p 
   · intro hs
     obtain ⟨n1, _, n3, _, _⟩ := hnone hs
     exact ⟨n1, n3⟩
+
+/-- **attached_once** — the terminal is attached (`AttachTo`) and activated (`SetState(Active)`)
+exactly once, at the link, and never again — however many further consoles and terminals initialise
+afterwards — and not at all if no pair comes up. (`tty.VT.AttachTo` re-allocates a blank buffer and
+homes the cursor, so a second attach would make the terminal forget the boot log.) -/
+theorem attached_once (sort : List Driver → List Driver) (p : Nat) (hp : p < N)
+    (before after : List (List UInt8)) (regs : List Driver) :
+    let st := bringUp sort p before regs after
+    st.ttyAttachCalls = (if st.sink.isSome then 1 else 0) ∧
+    st.ttySetStateCalls = (if st.sink.isSome then 1 else 0) := by
+  intro st
+  obtain ⟨⟨_, _, _, _, hcnt⟩, _⟩ := bringUp_spec sort p hp before regs after
+  exact hcnt
+
+/-- **terminal_shows_log** — with the shipped terminal as the TTY: a terminal that was blank when
+attached (`attached_once`: it is attached once) and behaves like the reference terminal of C17 on
+the bytes it receives shows, at the end, exactly the reference terminal fed with (the last
+`ringBufferSize-1` bytes logged before the link) ++ (every byte logged after it): no byte of the boot
+log is missing, repeated or out of order on the terminal, whatever the console geometry, scrollback
+and tab width. (That the shipped `tty.VT` refines the reference terminal is C17; that its console
+shows the terminal's viewport is C18.) -/
+theorem terminal_shows_log (sort : List Driver → List Driver) (p : Nat) (hp : p < N)
+    (before after : List (List UInt8)) (regs : List Driver) (w h sb tab : Nat) :
+    let st := bringUp sort p before regs after
+    ∀ t, st.sink = some t → ∃ n, st.linkedAt = some n ∧
+      shown w h sb tab st.ttyRecv = shown w h sb tab (ttyStream (st.logged.take n) (st.logged.drop n)) := by
+  intro st t ht
+  obtain ⟨_, hl, _⟩ := log_exactly_once sort p hp before after regs
+  obtain ⟨n, h1, _, h3, _⟩ := hl t ht
+  exact ⟨n, h1, by rw [h3]⟩
 
 /-- **link_moment** — "that moment": the terminal becomes the sink right after the status line of
 the driver whose arrival completes the (first console, first TTY) pair — `linkCount` drivers into
